@@ -966,6 +966,8 @@ class Ambiguity:
         """
 
         self.update = True
+        self.model.pupdate = True
+        self.model.dupdate = True
         return self.s.suppset(*args)
 
     def exptset(self, *args):
@@ -987,6 +989,8 @@ class Ambiguity:
         """
 
         self.update = True
+        self.model.pupdate = True
+        self.model.dupdate = True
         return self.s.exptset(*args)
 
     def probset(self, *args):
@@ -1008,6 +1012,8 @@ class Ambiguity:
         """
 
         self.update = True
+        self.model.pupdate = True
+        self.model.dupdate = True
         for arg in args:
             if arg.model is not self.model.pro_model:
                 raise ValueError('Constraints are not defined for the ' +
